@@ -598,3 +598,11 @@ impl ContentLength {
         matches!(*self, Self::Head)
     }
 }
+
+#[cfg(feature = "verif-hooks")]
+impl Stream {
+    /// Whether a send-side task is parked on this stream (verification hook, read-only).
+    pub(super) fn verif_has_send_task(&self) -> bool {
+        self.send_task.is_some()
+    }
+}
